@@ -38,6 +38,8 @@ type gen struct {
 	r       *rand.Rand
 	signer  types.Signer
 	invalid map[common.Hash]string
+	idx     int // world number (drives the systematic part of the invalid-block choice)
+	bare    bool // every node of this world runs the bare core processor (no staking module registered)
 	all     map[common.Hash]*types.Block
 }
 
@@ -52,8 +54,16 @@ func newGen(r *rand.Rand) *gen {
 		}
 		specs = append(specs, env.ValSpec{Role: role, Status: params.ValidatorOnline, Tokens: env.YOU(int64(900 + 100*i)), Operator: i})
 	}
-	g := env.MakeGenesis(env.Config{Keys: keys, Vals: specs, Users: 4, RewardsPool: env.YOU(100000)})
-	return &gen{keys: keys, genesis: g, r: r, signer: types.MakeSigner(nil), invalid: map[common.Hash]string{}, all: map[common.Hash]*types.Block{}}
+	// a third of the worlds has an empty rewards pool: a block without transactions then pays no
+	// subsidy, the staking module emits no log and the block carries NO receipt at all
+	pool := env.YOU(100000)
+	if r.Intn(3) == 0 {
+		pool = nil
+	}
+	g := env.MakeGenesis(env.Config{Keys: keys, Vals: specs, Users: 4, RewardsPool: pool})
+	// one world in four runs the bare core processor: no module receipt, so a block without
+	// transactions has no receipt at all
+	return &gen{keys: keys, genesis: g, r: r, signer: types.MakeSigner(nil), invalid: map[common.Hash]string{}, all: map[common.Hash]*types.Block{}, bare: r.Intn(4) == 0}
 }
 
 // node is a node with its own forging engine (which embeds the real verifier).
@@ -68,7 +78,7 @@ func (g *gen) newNodeOn(db youdb.Database) (*node, error) {
 	if err != nil {
 		return nil, err
 	}
-	n, err := env.NewNodeOn(db, g.genesis, eng)
+	n, err := env.NewNodeOnOpt(db, g.genesis, eng, !g.bare)
 	if err != nil {
 		return nil, err
 	}
@@ -134,6 +144,9 @@ var tampers = []struct {
 	{"gas-rewards", func(h *types.Header) { h.GasRewards = new(big.Int).Add(h.GasRewards, big.NewInt(1)) }},
 	{"version", func(h *types.Header) { h.CurrVersion++ }},
 	{"bloom", func(h *types.Header) { h.Bloom[5] ^= 1 }},
+	{"staking-root", func(h *types.Header) { h.StakingRoot[3] ^= 1 }},
+	{"subsidy", func(h *types.Header) { h.Subsidy = new(big.Int).Add(h.Subsidy, big.NewInt(1)) }},
+	{"next-approvals", func(h *types.Header) { h.NextApprovals++ }},
 }
 
 type call struct {
@@ -195,7 +208,8 @@ func (g *gen) buildWorld() (*world, error) {
 		w.forks = append(w.forks, br)
 	}
 	// invalid children of main blocks
-	for k := 0; k < 2+g.r.Intn(3); k++ {
+	nbad := 2 + g.r.Intn(3)
+	for k := 0; k < nbad; k++ {
 		at := 1 + g.r.Intn(L)
 		bn, err := g.newNodeOn(youdb.NewMemDatabase())
 		if err != nil {
@@ -206,7 +220,25 @@ func (g *gen) buildWorld() (*world, error) {
 			return nil, err
 		}
 		t := tampers[g.r.Intn(len(tampers))]
-		b, err := g.extend(bn, 1+g.r.Intn(3), t.f, t.name, false)
+		// one in three invalid blocks carries no transaction at all (no receipts to derive anything from)
+		ntx := 1 + g.r.Intn(3)
+		if g.r.Intn(3) == 0 {
+			ntx = 0
+		}
+		// the first two invalid blocks of a world walk through every (field, empty/non-empty block)
+		// combination systematically over consecutive worlds
+		switch k {
+		case 0:
+			t, ntx = tampers[g.idx%len(tampers)], 0
+		case 1:
+			t, ntx = tampers[(g.idx+len(tampers)/2)%len(tampers)], 1+g.r.Intn(3)
+		}
+		if g.bare && k < 2 {
+			// what distinguishes the bare processor: a block without any receipt - falsify the two
+			// header fields that are derived from the receipts
+			t, ntx = tampers[map[int]int{0: 7, 1: 2}[k]], 0
+		}
+		b, err := g.extend(bn, ntx, t.f, fmt.Sprintf("%s(%dtx)", t.name, ntx), false)
 		bn.Stop()
 		if err != nil {
 			return nil, err
@@ -293,8 +325,31 @@ func (w *world) schedule(r *rand.Rand) []call {
 	}
 	// interleave invalid blocks and duplicates at random positions
 	for _, bad := range w.bad {
-		at := r.Intn(len(cs) + 1)
-		cs = append(cs[:at], append([]call{{types.Blocks{bad}, "invalid(" + w.g.invalid[bad.Hash()] + ")@" + fmt.Sprint(bad.NumberU64())}}, cs[at:]...)...)
+		bc := call{types.Blocks{bad}, "invalid(" + w.g.invalid[bad.Hash()] + ")@" + fmt.Sprint(bad.NumberU64())}
+		placed := false
+		if r.Intn(3) > 0 {
+			// targeted: offer it at the moment its parent has just been imported - right before the
+			// valid sibling (the call that carries the sibling is split there), so that the invalid
+			// block is a candidate for the head and actually gets executed and validated
+			for ci := 0; ci < len(cs) && !placed; ci++ {
+				for bi, b := range cs[ci].blocks {
+					if b.ParentHash() == bad.ParentHash() && b.Hash() != bad.Hash() {
+						var repl []call
+						if bi > 0 {
+							repl = append(repl, call{cs[ci].blocks[:bi], cs[ci].desc + "(split)"})
+						}
+						repl = append(repl, bc, call{cs[ci].blocks[bi:], cs[ci].desc + "(rest)"})
+						cs = append(cs[:ci], append(repl, cs[ci+1:]...)...)
+						placed = true
+						break
+					}
+				}
+			}
+		}
+		if !placed {
+			at := r.Intn(len(cs) + 1)
+			cs = append(cs[:at], append([]call{bc}, cs[at:]...)...)
+		}
 	}
 	if len(cs) > 0 && r.Intn(2) == 0 {
 		d := cs[r.Intn(len(cs))]
@@ -332,6 +387,11 @@ func checkChain(c *core.BlockChain, db interface{ Keys() [][]byte }, rdb youdb.D
 		}
 		if why, ok := g.invalid[h.Hash()]; ok {
 			bad = append(bad, fmt.Sprintf("invalid-block-canonical:%s: block #%d with a wrong %s is canonical", why, n, why))
+			if strings.HasPrefix(why, "subsidy(") {
+				// listed finding (the field is not validated); state and chain stay consistent, so it
+				// is reported once and the exploration goes on with this block counted as accepted
+				delete(g.invalid, h.Hash())
+			}
 		}
 		prev = h
 	}
@@ -381,6 +441,7 @@ func tree(c *kit.Ctx, id string) {
 	r := c.Rand(id)
 	c.Begin(id, nil)
 	g := newGen(r)
+	fmt.Sscanf(strings.TrimLeft(id, "abcdefghijklmnopqrstuvwxyz"), "%d", &g.idx)
 	w, err := g.buildWorld()
 	if err != nil {
 		c.EndInconclusive("tree generation failed: " + err.Error())
@@ -432,7 +493,9 @@ func oneSchedule(c *kit.Ctx, g *gen, w *world, cs []call, r *rand.Rand, crashBud
 		c.Evals(1)
 		for _, v := range checkChain(t.Chain, cdb.MemDatabase, cdb, g) {
 			c.Violation(class(v), "after InsertChain("+k.desc+"): "+v, map[string]interface{}{"schedule": descs})
-			ok = false
+			if !strings.HasPrefix(class(v), "invalid-block-canonical:subsidy(") {
+				ok = false
+			}
 		}
 		if !ok {
 			break
